@@ -57,10 +57,13 @@ extern "C" void vh_c15_frame() {
             ref[r] = v; nixsym_reach("written");
         } else if (op == 2) {
             uint32_t r = nixsym_choice("row", (uint32_t)ref.size());
-            uint32_t c = nixsym_choice("col", NCOL);
+            uint32_t c = nixsym_choice("col", NCOL + 2);      // NCOL, NCOL+1: two cells in one call, mixed addressing
             if (c == 0) { int64_t x = nixsym_i64("i"); df.writeCell(r, 0, Variant(x)); ref[r].i = x; }
             else if (c == 1) { std::string x = sym_name("s", 2, "xy"); df.writeCell(r, 1, Variant(x)); ref[r].s = x; }
-            else { double x = nixsym_f64("d"); df.writeCells(r, {Cell("val", x)}); ref[r].d = x; }
+            else if (c == 2) { double x = nixsym_f64("d"); df.writeCells(r, {Cell("val", x)}); ref[r].d = x; }
+            else { double x = nixsym_f64("d"); int64_t y = nixsym_i64("i");                       // one call, cells addressed by index and by name
+                   if (c == 3) df.writeCells(r, {Cell(2u, Variant(x)), Cell("id", Variant(y))}); else df.writeCells(r, {Cell("id", Variant(y)), Cell(2u, Variant(x))});
+                   ref[r].d = x; ref[r].i = y; }
         } else if (op == 3) {              // column write with offset/count
             uint32_t off = nixsym_choice("off", (uint32_t)ref.size());
             uint32_t cnt = 1 + nixsym_choice("cnt", (uint32_t)ref.size() - off);
